@@ -119,7 +119,7 @@ Proof.
   unfold at_end_of_stream. rewrite HC. fold len. rewrite B3.
   destruct (len <=? b_len (m_bb m)) eqn:E3.
   - apply Nat.leb_le in E3. cbn zeta. cbn [m_s m_bb b_buf b_len b_closed b_pos].
-    repeat split; auto. intros _. lia.
+    unfold binv. cbn [m_s m_bb b_buf b_len b_closed b_pos]. repeat split; auto. intros _. lia.
   - apply Nat.leb_gt in E3. unfold get_n_chars. rewrite HC, B3. fold (chunk (b_len (m_bb m))).
     pose proof (chunk_nonempty _ E3) as HN. pose proof (chunk_length (b_len (m_bb m))) as HCL.
     cbn zeta.
@@ -136,8 +136,8 @@ Proof.
       - rewrite EQ, firstn_length. fold len. lia.
       - discriminate. }
     specialize (IH m2).
-    assert (H1 : s_content (m_s m2) = cs) by (unfold m2; cbn [m_s s_content]; exact HC).
-    assert (H2 : b_pos (m_bb m2) = PNum q) by (unfold m2; cbn [m_bb b_pos]; exact HP).
+    assert (H1 : s_content (m_s m2) = cs) by (unfold m2; cbn [m_s s_content]; reflexivity).
+    assert (H2 : b_pos (m_bb m2) = PNum q) by (unfold m2; cbn [m_bb b_pos]; reflexivity).
     assert (H3 : S (len - b_len (m_bb m2)) <= f) by (unfold m2; cbn [m_bb b_len]; lia).
     specialize (IH H1 HB2 H2 H3). cbn zeta in IH.
     destruct IH as (I1 & I2 & I3 & I4 & I5). repeat split; auto; try apply I2.
